@@ -2,6 +2,8 @@ from vlib import H
 PROPERTY = 'C19'
 LEVEL = 'model_checking'
 CLAIM = 'wip'
+RB = '_ZNSt8_Rb_treeIiiSt9_IdentityIiESt4lessIiESaIiEE'
+RBSET = ','.join(x + ':4' for x in [RB + '16_M_insert_uniqueIRKiEESt4pairISt17_Rb_tree_iteratorIiEbEOT_.0', '_ZSt18_Rb_tree_decrementPSt18_Rb_tree_node_base.0', '_ZSt18_Rb_tree_decrementPSt18_Rb_tree_node_base.1'])
 NOLOG = ['_ZN4util3log23LogPrintFormatInternal_[A-Za-z0-9_]*', '_ZN4util6detail24CheckNumFormatSpecifiersILj[0-9]+EEEvPKc']
 def e(nf, ncs, which, mode): return ('f%d_c%d_w%d_%s' % (nf, ncs, which, 'auto' if mode == 0 else 'man'), '%d, %d, %d, %d' % (nf, ncs, which, mode))
 ENT = [e(3, 1, 0, 0), e(3, 2, 1, 0), e(2, 2, 0, 0), e(3, 1, 0, 1), e(1, 1, 0, 0)]
@@ -11,7 +13,7 @@ HARNESSES = [
       stubs=['phantom Chainstate: m_chain (CChain, vector size set directly), m_from_snapshot_blockhash, m_assumeutxo, m_cached_snapshot_base, m_chainman/m_blockman reference slots',
              'node::BlockManager::LookupBlockIndex -> the harness snapshot-base block', 'assertion_fail -> CBMC assertion', 'tinyformat -> empty strings'],
       bounds='all 31-bit tip heights incl. empty chain, all 32-bit requested heights, all snapshot-base heights; loop-free'),
-    H('prunefiles', 'prunefiles.cpp', 'h_prunefiles', link=['node/blockstorage.cpp', 'validation.cpp'], entries=ENT, shadow=['nofmt'], noop=NOLOG, unwind=6, memunwind=168, timeout=300, objbits=10,
+    H('prunefiles', 'prunefiles.cpp', 'h_prunefiles', link=['node/blockstorage.cpp', 'validation.cpp'], entries=ENT, shadow=['nofmt'], noop=NOLOG, unwind=6, defines={'SETSTUB': 1}, memunwind=168, timeout=300, objbits=10,
       functions=['node::BlockManager::FindFilesToPrune', 'FindFilesToPruneManual', 'CalculateCurrentUsage', 'MaxBlockfileNum', 'Chainstate::GetPruneRange', 'ChainstateManager::HistoricalChainstate', 'IsInitialBlockDownload'],
       stubs=['wip'],
       bounds='wip'),
